@@ -109,6 +109,42 @@ def content_mutators(P, scope):
     return MUT, direct
 
 
+def rollback_rule(C, P, RULE):
+    """a failed merge is rolled back through remove_from_file before the error is returned (shared by C10 and C09)"""
+    lb = P.get('AutosarModel::load_buffer_internal')
+    mf = calls(lb, r'AutosarModel>::merge_file_data$')
+    if len(mf) != 1:
+        C.anchor_missing(RULE, 'merge_file_data call in load_buffer_internal')
+    else:
+        sw = switch_edges_on_call_result(lb, mf[0])
+        pushes = [pos for pos, t in lb.iter_calls() if call_matches(t, r'Vec::<T, A>::push$') and (lambda rp: rp is not None and has_field(rp, 'AutosarModelRaw.files'))(E.recv_place(lb, t))]
+        ok = False
+        if sw:
+            blk, ts, els = sw
+            err_t = ts.get('1', els)
+            errs = [e for e in E.err_exit_positions(lb)]
+            region = lb.reach_from((err_t, 0), include_start=True)
+            err_exits = [e for e in errs if e in region]
+            rb = []
+            for p in calls(lb, r'impl Element>::remove_from_file$'):
+                n_, c_, f_ = deep_sources(lb, lb.blocks[p[0]]['term']['args'][1], depth=10)
+                n0, c0, f0 = deep_sources(lb, lb.blocks[p[0]]['term']['args'][0], depth=10)
+                if 'arxml_file' in n_ and any(c.endswith('AutosarModel>::root_element') for c in c0):
+                    rb.append(p)
+            for p in calls(lb, r'AutosarModel>::remove_file$'):
+                # only effective when the file is already in model.files
+                if pushes and all(lb.pos_dominates(q, p) for q in pushes):
+                    rb.append(p)
+            # every path from the Err edge to a return passes a rollback call
+            rets = [(bi, lb.nstmts(bi)) for bi in range(len(lb.blocks)) if lb.blocks[bi]['term']['k'] == 'return' and (bi, 0) in region]
+            ok = bool(rb) and bool(rets) and must_pass(lb, (err_t, 0), rets, through=set(rb))
+        C.check(ok, RULE, 'load_buffer_internal|merge-failure-removes-merged-elements', 'a failed merge leaves load_buffer_internal without Element::remove_from_file(new file) on the root: elements already imported stay in the model restricted to a file that never becomes part of it (written to no file)',
+                lb.where(mf[0]), sample={'fn': 'load_buffer_internal', 'rollback': 'root_element().remove_from_file(&arxml_file)', 'files_push_after_merge': bool(pushes)})
+        # the file joins model.files only after a successful merge
+        C.check(len(pushes) == 1 and lb.pos_dominates(mf[0], pushes[0]) is False or (len(pushes) == 1 and mf[0] not in lb.reach_from(pushes[0])), RULE, 'load_buffer_internal|file-joins-after-merge',
+                'the new file is pushed to model.files before the merge can fail', lb.where(pushes[0]) if pushes else '')
+
+
 def run(ctx):
     C = Check('C10', ctx['tier'], 'other', ctx['seed'])
     P = Program(ctx['facts'])
@@ -294,38 +330,7 @@ def run(ctx):
     from c09 import own_set_rule
     own_set_rule(C, P, 'C10-MUST-inherit')
     # ---------------- MUST-rollback ----------------
-    lb = P.get('AutosarModel::load_buffer_internal')
-    mf = calls(lb, r'AutosarModel>::merge_file_data$')
-    if len(mf) != 1:
-        C.anchor_missing('C10-MUST-rollback', 'merge_file_data call in load_buffer_internal')
-    else:
-        sw = switch_edges_on_call_result(lb, mf[0])
-        pushes = [pos for pos, t in lb.iter_calls() if call_matches(t, r'Vec::<T, A>::push$') and (lambda rp: rp is not None and has_field(rp, 'AutosarModelRaw.files'))(E.recv_place(lb, t))]
-        ok = False
-        if sw:
-            blk, ts, els = sw
-            err_t = ts.get('1', els)
-            errs = [e for e in E.err_exit_positions(lb)]
-            region = lb.reach_from((err_t, 0), include_start=True)
-            err_exits = [e for e in errs if e in region]
-            rb = []
-            for p in calls(lb, r'impl Element>::remove_from_file$'):
-                n_, c_, f_ = deep_sources(lb, lb.blocks[p[0]]['term']['args'][1], depth=10)
-                n0, c0, f0 = deep_sources(lb, lb.blocks[p[0]]['term']['args'][0], depth=10)
-                if 'arxml_file' in n_ and any(c.endswith('AutosarModel>::root_element') for c in c0):
-                    rb.append(p)
-            for p in calls(lb, r'AutosarModel>::remove_file$'):
-                # only effective when the file is already in model.files
-                if pushes and all(lb.pos_dominates(q, p) for q in pushes):
-                    rb.append(p)
-            # every path from the Err edge to a return passes a rollback call
-            rets = [(bi, lb.nstmts(bi)) for bi in range(len(lb.blocks)) if lb.blocks[bi]['term']['k'] == 'return' and (bi, 0) in region]
-            ok = bool(rb) and bool(rets) and must_pass(lb, (err_t, 0), rets, through=set(rb))
-        C.check(ok, 'C10-MUST-rollback', 'load_buffer_internal|merge-failure-removes-merged-elements', 'a failed merge leaves load_buffer_internal without Element::remove_from_file(new file) on the root: elements already imported stay in the model restricted to a file that never becomes part of it (written to no file)',
-                lb.where(mf[0]), sample={'fn': 'load_buffer_internal', 'rollback': 'root_element().remove_from_file(&arxml_file)', 'files_push_after_merge': bool(pushes)})
-        # the file joins model.files only after a successful merge
-        C.check(len(pushes) == 1 and lb.pos_dominates(mf[0], pushes[0]) is False or (len(pushes) == 1 and mf[0] not in lb.reach_from(pushes[0])), 'C10-MUST-rollback', 'load_buffer_internal|file-joins-after-merge',
-                'the new file is pushed to model.files before the merge can fail', lb.where(pushes[0]) if pushes else '')
+    rollback_rule(C, P, 'C10-MUST-rollback')
     # ---------------- WHO-membership ----------------
     writers = {}
     for b in scope:
